@@ -3654,6 +3654,12 @@ static ASTNode *clone_ast_node(const ASTNode *node) {
         case AST_ASSERT:
             cloned->as.assert.condition = clone_ast_node(node->as.assert.condition);
             break;
+        case AST_FIELD_ACCESS:
+            /* (ensures (> result.x 0)): without this case the clone had no object and the type
+             * checker stopped on an assertion */
+            cloned->as.field_access.object = clone_ast_node(node->as.field_access.object);
+            cloned->as.field_access.field_name = node->as.field_access.field_name ? strdup(node->as.field_access.field_name) : NULL;
+            break;
         /* Add more cases as needed */
         default:
             /* For unhandled types, just copy the node structure */
